@@ -106,3 +106,159 @@ def rand_bytes_malformed(rng, maxlen=24):
         else:
             out.append(rng.randrange(0x00, 0x100))
     return bytes(out)
+
+# ---------------------------------------------------------------- lines, tokens, editor, history, writer, sessions
+TOK_ALPHA = [b"a", b" ", b'"', b"\\", b"-", "é".encode()]
+
+def product_bytes(alphabet, depth):
+    for k in range(depth + 1):
+        for t in itertools.product(alphabet, repeat=k):
+            yield b"".join(t)
+
+def rand_line(rng, maxlen=30):
+    n = rng.randrange(maxlen + 1)
+    out = []
+    for _ in range(n):
+        k = rng.randrange(12)
+        if k < 4: out.append(rng.choice([b"a", b"b", b"x", b"1"]))
+        elif k < 6: out.append(b" ")
+        elif k < 7: out.append(b'"')
+        elif k < 8: out.append(b"\\")
+        elif k < 9: out.append(b"-")
+        else: out.append(rand_char(rng, 1))
+    return b"".join(out)
+
+def rand_string(rng, maxlen=6):
+    n = rng.choice([0, 0, 1, 1, 2, 3, maxlen])
+    return b"".join(rng.choice([b"a", b" ", b'"', b"\\", b"-", "é".encode(), "€".encode(), b"b", b"\\\"", b"  "]) for _ in range(n))
+
+ARG_TOKENS = [b"", b"-", b"--", b"-a", "-aé".encode(), b"--x", b"---x", b"a", "é b".encode(), b"-h", b"--help", "-€h😀".encode(), b"--=", b"x-y"]
+
+def quote_token(t):
+    if t == b"" or b" " in t or b'"' in t or b"\\" in t:
+        return b'"' + t.replace(b"\\", b"\\\\").replace(b'"', b'\\"') + b'"'
+    return t
+
+def cmd_line(name, toks):
+    return b" ".join([name] + [quote_token(t) for t in toks])
+
+ED_CHARS = [b"a", "é".encode(), "€".encode(), "😀".encode(), b" "]
+
+def ed_ops_alphabet():
+    return ["i:" + hx(c) for c in ED_CHARS[:4]] + ["ml", "mr", "rm"]
+
+def rand_ed_ops(rng, n):
+    ops = []
+    for _ in range(n):
+        k = rng.randrange(20)
+        if k < 9: ops.append("i:" + hx(rng.choice(ED_CHARS)))
+        elif k < 10: ops.append("i:" + hx(b"".join(rng.choice(ED_CHARS) for _ in range(rng.randrange(0, 5)))))
+        elif k < 13: ops.append("ml")
+        elif k < 16: ops.append("mr")
+        elif k < 19: ops.append("rm")
+        else: ops.append("cl")
+    return ops
+
+HIST_LINES = [b"a", b"b", "é".encode(), b"ab", b"ba", "aé".encode(), b"abc", "€a".encode(), b"abcd", b"abcdefgh", b""]
+
+def rand_hist_ops(rng, n, lines=HIST_LINES):
+    ops = []
+    for _ in range(n):
+        k = rng.randrange(10)
+        if k < 5: ops.append("p:" + hx(rng.choice(lines)))
+        elif k < 8: ops.append("o")
+        else: ops.append("n")
+    return ops
+
+def rand_out_text(rng, maxlen=8):
+    n = rng.randrange(maxlen + 1)
+    return b"".join(rng.choice([b"a", b"b", b"\n", b"\r\n", b"\r", b" ", "é".encode(), b"\n\n", b"x"]) for _ in range(n))
+
+def rand_writer_ops(rng, sep=";", kv=":"):
+    n = rng.choice([0, 1, 1, 2, 3, 4])
+    ops = []
+    for _ in range(n):
+        kind = rng.choice(["s", "s", "s", "l", "u", "f"])
+        ops.append(kind + kv + hx(rand_out_text(rng)))
+    return sep.join(ops) if ops else ("-" if sep == ";" else "")
+
+KEYS = {"left": b"\x1b[D", "right": b"\x1b[C", "up": b"\x1b[A", "down": b"\x1b[B", "bs": b"\x08", "tab": b"\t"}
+RAW_CMDS = [b"echo", b"nl", b"crlf", b"ln", b"mid", b"lnmid", b"fmt", b"prompt", b"quiet", b"empty", b"help", b"he", b"foo", b"x"]
+
+def rand_word(rng):
+    k = rng.randrange(10)
+    if k < 4: return rng.choice(RAW_CMDS)
+    if k < 6: return rng.choice(ARG_TOKENS)
+    return b"".join(rand_char(rng, 3) for _ in range(rng.randrange(1, 4))).replace(b" ", b"a")
+
+def rand_session_ops(rng, nops=30, api=True, malformed=False, faults=False):
+    """list of session ops (strings). Mostly-valid key units; optional API calls, malformed bytes, fault arming."""
+    ops = []
+    for _ in range(nops):
+        k = rng.randrange(100)
+        if k < 30:
+            w = rand_word(rng)
+            if rng.randrange(4) == 0:
+                w = quote_token(w + b" " + rand_word(rng))
+            ops.append("b:" + hx(w))
+        elif k < 38: ops.append("b:20")
+        elif k < 44: ops.append("b:" + hx(rand_char(rng, 2)))
+        elif k < 52: ops.append("b:" + hx(KEYS["left"]))
+        elif k < 57: ops.append("b:" + hx(KEYS["right"]))
+        elif k < 63: ops.append("b:" + hx(KEYS["bs"]))
+        elif k < 69: ops.append("b:" + hx(KEYS["up"]))
+        elif k < 73: ops.append("b:" + hx(KEYS["down"]))
+        elif k < 78: ops.append("b:" + hx(KEYS["tab"]))
+        elif k < 88: ops.append("b:" + hx(rng.choice([b"\r", b"\n", b"\r\n", b"\n\r"])))
+        elif k < 92:
+            if api: ops.append("w:" + rand_writer_ops(rng, sep=",", kv=""))
+            else: ops.append("b:61")
+        elif k < 95:
+            if api: ops.append("p:%d" % rng.randrange(4))
+            else: ops.append("b:62")
+        elif k < 98:
+            if malformed: ops.append("b:" + hx(rand_bytes_malformed(rng, 4)))
+            else: ops.append("b:" + hx(rng.choice([b"\x1b", b"\x1b[5~", b"\x00", b"\x1b[1;5C"])))
+        else:
+            if faults: ops.append("x:%d:%s" % (rng.randrange(4), rng.choice(["once", "perm"])))
+            else: ops.append("b:2d")
+    return ops
+
+SMALL_CAPS = [0, 1, 2, 3, 4, 5, 7, 8, 8, 12, 16, 16, 24, 40, 64]
+
+def rand_session(rng, nops=30, cmdset="raw", **kw):
+    cap = rng.choice(SMALL_CAPS)
+    hcap = rng.choice(SMALL_CAPS)
+    return "%d %d %d %s %s" % (cap, hcap, rng.randrange(4), cmdset, ";".join(rand_session_ops(rng, nops, **kw)))
+
+
+W1_CHARS = [b"a", b"b", b"x", b"-", b"h", "é".encode(), "λ".encode(), "→".encode(), "ж".encode(), b"1", b'"']
+
+def rand_session_w1(rng, nops=30):
+    """sessions over width-1 printable characters only (C06's quantifier)"""
+    cap = rng.choice(SMALL_CAPS)
+    hcap = rng.choice(SMALL_CAPS)
+    ops = []
+    for _ in range(nops):
+        k = rng.randrange(100)
+        if k < 25:
+            w = rng.choice([b"echo", b"nl", b"crlf", b"ln", b"mid", b"lnmid", b"fmt", b"prompt", b"quiet", b"help", b"he", b"x", b"hel"])
+            ops.append("b:" + hx(w))
+        elif k < 33: ops.append("b:20")
+        elif k < 45: ops.append("b:" + hx(rng.choice(W1_CHARS)))
+        elif k < 55: ops.append("b:" + hx(KEYS["left"]))
+        elif k < 60: ops.append("b:" + hx(KEYS["right"]))
+        elif k < 66: ops.append("b:" + hx(KEYS["bs"]))
+        elif k < 72: ops.append("b:" + hx(KEYS["up"]))
+        elif k < 76: ops.append("b:" + hx(KEYS["down"]))
+        elif k < 81: ops.append("b:" + hx(KEYS["tab"]))
+        elif k < 89: ops.append("b:" + hx(rng.choice([b"\r", b"\n", b"\r\n", b"\n\r"])))
+        elif k < 95:
+            n = rng.choice([1, 1, 2, 3])
+            ws = []
+            for _ in range(n):
+                t = b"".join(rng.choice([b"a", b"b", b"\n", b"\r\n", b" ", "é".encode(), b"x", b""]) for _ in range(rng.randrange(0, 6)))
+                ws.append(rng.choice("slu") + hx(t))
+            ops.append("w:" + ",".join(ws))
+        else: ops.append("p:%d" % rng.randrange(4))
+    return "%d %d %d raw %s" % (cap, hcap, rng.randrange(4), ";".join(ops))
